@@ -7,6 +7,7 @@
 #include "block.c"
 #include "reader.c"
 #include "tbl.h"
+#include "canon_reader.h"
 
 /* ------------------------------------------------------------ table under test */
 #define MAXN 48
@@ -179,15 +180,6 @@ static bool sys_step(rsys *S, int op) {
 }
 
 /* ------------------------------------------------------------ canonical state */
-static uint64_t canon_bi(const struct block_iter *bi) {
-	if (!bi) return 0x1111;
-	uint64_t h = vh_mix(bi->current, bi->restart_index);
-	h = vh_mix(h, bi->next ? (uint64_t) (bi->next - bi->data) : ~0ULL);
-	h = vh_mix(h, bi->val ? (uint64_t) (bi->val - bi->data) : ~0ULL);
-	h = vh_mix(h, bi->val_len);
-	h = vh_hash(ubuf_data(bi->key), ubuf_size(bi->key), h);
-	return h;
-}
 static uint64_t canon_sys(const rsys *S) {
 	uint64_t h = 42;
 	for (int i = 0; i < S->m; i++) {
@@ -195,13 +187,7 @@ static uint64_t canon_sys(const rsys *S) {
 		h = vh_mix(h, x->next_idx * 4 + x->failed * 2 + x->have_last);
 		if (x->have_last) h = vh_mix(h, x->last_idx);
 		if (!x->it) { h = vh_mix(h, 0xdead); continue; }
-		const struct reader_iter *it = (const struct reader_iter *) x->it->clos;
-		h = vh_mix(h, it->block_offset);
-		h = vh_mix(h, it->first * 2 + it->valid);
-		h = vh_mix(h, it->it_type);
-		if (it->b) { h = vh_mix(h, it->b->size); h = vh_mix(h, it->b->restart_offset); h = vh_hash(it->b->data, it->b->size, h); } else h = vh_mix(h, 0xb10c);
-		h = vh_mix(h, canon_bi(it->bi));
-		h = vh_mix(h, canon_bi(it->index_iter));
+		h = vh_mix(h, canon_reader_iter((const struct reader_iter *) x->it->clos));
 	}
 	return h;
 }
